@@ -37,11 +37,14 @@ import (
 )
 
 type prodRoot struct {
-	kind    string // expr stmt stmtlist exprlist decl clause field type
+	kind    string // expr stmt stmtlist exprlist decl clause field type leaf
 	pattern string
 	hasY    bool
 	typed   bool // $x (and $y) are mostly expressions with types: crossed with the type-pattern family too
 }
+
+// noVars: the root binds no variable (a bare identifier, a literal, `break`): only the whole match and the file can be asked about
+func (r prodRoot) noVars() bool { return !strings.Contains(r.pattern, "$") }
 
 var prodRoots = []prodRoot{
 	// ---- expressions
@@ -165,6 +168,30 @@ var prodRoots = []prodRoot{
 	{"field", "func($*x) $y", true, false},
 	{"field", "func($*x) ($*y)", true, false},
 	{"field", "func($x, $y $_)", true, false},
+	// ---- leaves: a bare identifier or literal as the whole pattern (the rule is filed under the identifier / literal bucket and
+	// meets every identifier resp. literal node the walker visits: names of declarations, labels, package names, field names,
+	// import paths, struct tags), and the statements that consist of a keyword and at most a label
+	{"leaf", "gi", false, false},
+	{"leaf", "nil", false, false},
+	{"leaf", "iota", false, false},
+	{"leaf", "fmt", false, false},
+	{"leaf", "use", false, false},
+	{"leaf", "L", false, false},
+	{"leaf", "tagged", false, false},
+	{"leaf", "int", false, false},
+	{"leaf", "_", false, false},
+	{"leaf", "1", false, false},
+	{"leaf", "1.5", false, false},
+	{"leaf", "'c'", false, false},
+	{"leaf", "\"s\"", false, false},
+	{"leaf", "1i", false, false},
+	{"leaf", "\"fmt\"", false, false},
+	{"stmt", "break", false, false},
+	{"stmt", "continue", false, false},
+	{"stmt", "break $x", false, false},
+	{"stmt", "continue $x", false, false},
+	{"stmt", "goto $x", false, false},
+	{"stmt", "fallthrough", false, false},
 	// ---- types
 	{"type", "[]$x", false, false},
 	{"type", "[$x]$y", true, false},
@@ -215,8 +242,15 @@ func prodClass(r prodRoot) []string {
 		case has("$x["):
 			return []string{"Index"}
 		}
+	case "leaf":
+		if p[0] == '"' || p[0] == '\'' || (p[0] >= '0' && p[0] <= '9') {
+			return []string{"BasicLit"}
+		}
+		return []string{"Ident"}
 	case "stmt":
 		switch {
+		case has("break"), has("continue"), has("goto "), p == "fallthrough":
+			return []string{"Branch"}
 		case has("return"):
 			return []string{"Return"}
 		case has("go "):
@@ -322,7 +356,9 @@ func strFilter(ctx *dsl.VarFilterContext) bool {
 // prodExtraInsts: instances that exist in the product sweep only, on variable v (other: the other variable)
 func prodExtraInsts(v string) []inst {
 	var out []inst
-	add := func(name, ctor string, d *filt.DExpr) { out = append(out, inst{name: name + "@" + v, ctor: ctor, d: d}) }
+	add := func(name, ctor string, d *filt.DExpr) {
+		out = append(out, inst{name: name + "@" + v, ctor: ctor, d: d})
+	}
 	add("Type.Implements:heap.Interface", "makeTypeImplementsFilter", filt.Call("Type.Implements", v, filt.Str("container/heap.Interface")))
 	add("Type.Implements:flag.Getter", "makeTypeImplementsFilter", filt.Call("Type.Implements", v, filt.Str("flag.Getter")))
 	add("Type.Implements:fmt.Stringer", "makeTypeImplementsFilter", filt.Call("Type.Implements", v, filt.Str("fmt.Stringer")))
@@ -402,9 +438,15 @@ func prodRules(full bool) []prodRuleT {
 			if in.needY && !root.hasY {
 				continue
 			}
+			if root.noVars() && !varless(in) {
+				continue
+			}
 			add(in)
 		}
 		for _, in := range extraX {
+			if root.noVars() {
+				continue
+			}
 			add(in)
 		}
 		if root.hasY {
@@ -437,6 +479,12 @@ func prodRules(full bool) []prodRuleT {
 			}
 		}
 		rules = append(rules, prodRuleT{root: root, in: inst{name: "true"}, accept: true})
+		if root.noVars() {
+			for _, fn := range []string{"doText", "doType", "doOther"} {
+				rules = append(rules, prodRuleT{root: root, in: inst{name: "Do:" + fn}, do: fn, accept: true})
+			}
+			continue
+		}
 		rules = append(rules, prodRuleT{root: root, in: inst{name: "At:x"}, extra: ".At(m[\"x\"])", accept: true})
 		if root.hasY {
 			rules = append(rules, prodRuleT{root: root, in: inst{name: "At:y"}, extra: ".At(m[\"y\"])", accept: true})
@@ -553,6 +601,9 @@ func prodMkRules(units []prodRuleT) (out []filt.Rule, ruleOf []int) {
 			if len(u.in.name)%2 == 0 {
 				fr.Extra = ".\n\t\tSuggest(`$x`)" + u.extra
 			}
+		} else if u.root.noVars() {
+			fr.Report = fmt.Sprintf("$$|g%d", j)
+			fr.Extra = ".\n\t\tSuggest(`$$`)" + u.extra
 		} else {
 			fr.Report = fmt.Sprintf("$x|$$|g%d", j)
 			fr.Extra = ".\n\t\tSuggest(`$x`)" + u.extra
@@ -623,6 +674,7 @@ func outJSON(v interface{}) {
 		outLine(string(b))
 	}
 }
+
 var prodSelfCheck bool
 
 func prodRunSet(t *hutil.Target, batch []prodRuleT, b int) (n int, bads []bad, pmsg, lerr string) {
